@@ -41,7 +41,22 @@ CMP = {"eq": "==", "ne": "!=", "lt": "<", "le": "<=", "gt": ">", "ge": ">="}
 UNARY = ["str", "bool", "iter", "aiter", "len", "hash", "pos", "neg", "int", "float", "call", "callt", "getattr", "getdunder",
          "getitem", "isdefined", "isundefined", "default", "copy", "deepcopy", "pickle"]
 ORIGINS = {"name": "missing_var", "attr": "obj.missing_attr", "item": "seq[7]", "hint": "(empty_seq|first)",
-           "unsafe": "obj.__class__"}       # "unsafe": evaluated by a SandboxedEnvironment -> exc=SecurityError
+           "unsafe": "obj.__class__",       # "unsafe": evaluated by a SandboxedEnvironment -> exc=SecurityError
+           # missing attribute / item on owners of every truthiness (falsy: None {} [] '' 0 False; truthy: dict, str, object)
+           "attr-none": "o_none.missing_attr", "attr-zero": "o_zero.missing_attr", "attr-false": "o_false.missing_attr",
+           "attr-emptystr": "o_estr.missing_attr", "item-emptydict": "o_edict['k']", "item-emptylist": "o_elist[3]",
+           "item-emptystr": "o_estr[5]", "item-dict": "o_dict['nokey']", "attr-str": "o_str.missing_attr", "item-none": "o_none['k']",
+           "attr-object": "o_obj.missing_attr"}
+# the origins above only change the owner: they are run on the operations whose result depends on the origin
+OWNER_ORIGINS = [k for k in ORIGINS if k.startswith(("attr-", "item-"))]
+OWNER_OPS = ["str", "bool", "pos", "getattr", "getitem", "arith:add:fwd:int", "cmp:eq:rev:str", "copy"]
+
+
+class _Plain:
+    pass
+
+
+OWNER_OBJECT = _Plain()
 
 
 def all_ops():
@@ -154,7 +169,8 @@ class World:
         self.cache = {}
 
     def vars(self, c, o=None):
-        v = {"obj": 42, "seq": (1, 2), "D": DEFAULT, "empty_seq": []}
+        v = {"obj": 42, "seq": (1, 2), "D": DEFAULT, "empty_seq": [], "o_none": None, "o_zero": 0, "o_false": False, "o_estr": "",
+             "o_edict": {}, "o_elist": [], "o_dict": {"a": 1}, "o_str": "text", "o_obj": OWNER_OBJECT}
         if o is not None:
             v["x"] = self.other(c, o)
         return v
@@ -459,7 +475,7 @@ def observe(w, c, origin, op, path, msgs):
     return out + " logs=" + ",".join(logs), detail
 
 
-def oracle(c, origin, op, spec, real, detail, msgs, names):
+def oracle(c, origin, op, spec, real, detail, msgs, names, owner=None):
     """S applied to the real behaviour (independent of the dispatch model). -> None | reason"""
     out, logs = real.split(" logs=")
     if spec == "unspecified":
@@ -485,6 +501,8 @@ def oracle(c, origin, op, spec, real, detail, msgs, names):
             return f"DebugUndefined of a missing variable must print '{{{{ missing_var }}}}', observed {t!r}"
         if not any(n.strip("'") in t for n in names):
             return f"debug text {t!r} does not mention the subject"
+        if owner is not None and owner not in t:
+            return f"debug text {t!r} of a missing attribute / element does not name its owner ({owner})"
         return None
     if out != table[want]:
         return f"documented outcome {spec}, observed {out}"
@@ -554,12 +572,21 @@ def subject_names(w, c, origin):
     return [repr(u._undefined_name)]
 
 
+def owner_text(w, c, origin):
+    """object_type_repr of the owner for values made from a missing attribute / element without a hint"""
+    from jinja2.utils import missing, object_type_repr
+    u = w.make(c, origin)
+    if u._undefined_hint or u._undefined_obj is missing:
+        return None
+    return object_type_repr(u._undefined_obj)
+
+
 def judge(ctx, w, results):
     for cell, model, real, detail, spec, m in results:
         c, origin, op, path = cell
         case = {"type": c, "origin": origin, "operation": op, "path": path}
         names = subject_names(w, c, origin) + (["'other_q'"] if op.split(":")[-1] in ("same", "plain") else [])
-        why = oracle(c, origin, op, spec, real, detail, m, names)
+        why = oracle(c, origin, op, spec, real, detail, m, names, owner_text(w, c, origin))
         lw = log_oracle(c, op, real)
         ctx.case(sample=dict(case, observed=real, model=model, documented=spec) if (hash(str(cell)) % 977 == 0) else None,
                  key=(c, origin, op, path))
@@ -595,6 +622,16 @@ def unspecified_probes(ctx, w):
                 out = type(e).__name__
             seen.setdefault(label, {})[c] = out
             ctx.count("unspecified-probe/" + label)
+    # a lone expression rendered by a NativeEnvironment is returned, not printed: no operation is applied
+    from jinja2.nativetypes import NativeEnvironment
+    for c in CLASSES:
+        try:
+            r = NativeEnvironment(undefined=w.cls[c]).from_string("{{ missing_var }}").render()
+            out = "returns the undefined object" if isinstance(r, w.plain) else "returns " + type(r).__name__
+        except Exception as e:  # noqa
+            out = type(e).__name__
+        seen.setdefault("native-lone-expression", {})[c] = out
+        ctx.count("unspecified-probe/native-lone-expression")
     ctx.extra["unspecified_probes"] = seen
 
 
@@ -687,7 +724,7 @@ def run(ctx):
     cells = []
     for c in CLASSES:
         for origin in ORIGINS:
-            for op in all_ops():
+            for op in (all_ops() if origin not in OWNER_ORIGINS else OWNER_OPS):
                 cells.append((c, origin, op, "direct"))
                 if op == "getattr":
                     cells += [(c, origin, op, v) for v in ("direct-lead", "direct-trail", "direct-under")]
